@@ -4,6 +4,12 @@
 //@hoist-closure-patterns :: closure parameter patterns hoisted into a let (Verus accepts only variables as closure parameters)
 //@hoist-format-captures :: format! inline captures hoisted to positional arguments
 //@rewrite `.replace(` => `.shim_replace(` :: str::replace is generic over the unstable Pattern trait; stand-in returning an uninterpreted function of the inputs (spec/lib/print_model.rs)
+//@rewrite `.strip_prefix(` => `.shim_strip_prefix(` :: generic over Pattern like replace; uninterpreted result (spec/lib/print_model.rs)
+//@rewrite `.strip_suffix(` => `.shim_strip_suffix(` :: as strip_prefix
+//@rewrite `.trim_start_matches(` => `.shim_trim_start_matches(` :: as strip_prefix
+//@rewrite `.trim_end_matches(` => `.shim_trim_end_matches(` :: as strip_prefix
+//@rewrite `.starts_with(` => `.shim_starts_with(` :: as strip_prefix
+//@rewrite `.ends_with(` => `.shim_ends_with(` :: as strip_prefix
 //@rewrite `.to_string()` => `.shim_to_string()` :: ToString::to_string comes from the blanket impl over Display, which Verus cannot specify; stand-in with an uninterpreted function of the receiver (spec/lib/print_model.rs)
 // Unit libmain: lib::{create_shader_module, create_shader_module_embedded, create_shader_module_inner, pretty_print, pretty_print_rustfmt}.
 #![feature(allocator_api)]
